@@ -207,6 +207,8 @@ def view (P, x, depth=0):
   names = set(k for k in vars(x) if not k.startswith('_'))
   for p in _VIEW_PROPS:
     if isinstance(getattr(type(x), p, None), property): names.add(p)
+  for p in ('header_type', 'type', 'property', 'vendor', 'subtype'):
+    if hasattr(x, p): names.add(p)
   d = {'<class>': type(x).__name__}
   for k in sorted(names):
     if k == 'raw': continue
@@ -257,7 +259,1301 @@ def layout_diff (exp, b, dont_care):
         if len(a) == 4:
           ok = S.wildcards_equiv(struct.unpack('!L', e)[0], struct.unpack('!L', a)[0],
                                  dont_care if p.endswith('match.wildcards') else 0)
-      if not ok: return (p, e, a)
+      if not ok: return (p, e, a, off)
     off += len(e)
-  if len(b) != off: return ('<end>', b'', b[off:off + 16])
+  if len(b) != off: return ('<end>', b'', b[off:off + 16], off)
   return None
+
+
+# ---------------------------------------------------------------------------------------
+# the oracle for one case
+# ---------------------------------------------------------------------------------------
+def layout_owner (K, path):
+  p = strip_idx(path)
+  owner, rest = K.opts.get('owner', K.name.split('/')[0]), p
+  if K.opts.get('owner_fixed'): return owner, '*'
+  ms = list(re.finditer(r'\[\]:([\w/]+)\.', p))
+  if ms:
+    owner, rest = ms[-1].group(1), p[ms[-1].end():]
+  if rest.startswith('match.'): owner, rest = 'ofp_match', rest[6:]
+  elif rest.startswith('desc.'): owner, rest = 'ofp_phy_port', rest[5:]
+  return owner, rest
+
+
+def _one (xs):
+  if len(xs) != 1: raise AssertionError("list decoder returned %d elements" % len(xs))
+  return xs[0]
+
+
+def decoders (P, K, n):
+  """[(label, fn(raw, off) -> (new offset, object), strict)]"""
+  of, nx = P.of, P.nx
+  cls = K.cls(P)
+  cat = K.cat
+  if cat == 'msg':
+    return [('unpack_new', cls.unpack_new, True),
+            ('dispatch', lambda raw, off: P.unpackers[raw[off + 1]](raw, off), True)]
+  if cat == 'msg1':
+    return [('unpack_new', cls.unpack_new, True)]
+  if cat == 'action':
+    def lst (raw, off):
+      o, xs = of._unpack_actions(raw, n, off); return o, _one(xs)
+    return [('unpack_new', cls.unpack_new, True), ('_unpack_actions', lst, True)]
+  if cat == 'struct':
+    def st (raw, off):
+      o = cls(); return o.unpack(raw, off), o
+    return [('unpack', st, True)]
+  if cat == 'stats':
+    def sb (raw, off):
+      o = cls(); return o.unpack(raw, off, n), o
+    return [('unpack', sb, True)]
+  if cat == 'qprop':
+    def qp (raw, off):
+      o = cls(); return o.unpack(raw, off), o
+    def ql (raw, off):
+      o, xs = of._unpack_queue_props(raw, n, off); return o, _one(xs)
+    return [('unpack', qp, True), ('_unpack_queue_props', ql, True)]
+  if cat == 'nxaction':
+    def gl (raw, off):
+      o, xs = of._unpack_actions(raw, n, off); return o, _one(xs)
+    return [('unpack_new', cls.unpack_new, True), ('_unpack_actions(generic)', gl, False)]
+  if cat == 'nxmsg':
+    out = [('unpack_new', cls.unpack_new, True),
+           ('ofp_vendor_generic', of.ofp_vendor_generic.unpack_new, False)]
+    if K.opts.get('nx_dispatch'):
+      def nd (raw, off):
+        nx._old_unpacker = of.ofp_vendor_generic.unpack_new
+        return nx._unpack_nx_vendor(raw, off)
+      out.append(('_unpack_nx_vendor', nd, True))
+    return out
+  if cat == 'nxm':
+    return [('nxm_entry.unpack_new', nx.nxm_entry.unpack_new, True)]
+  if cat == 'nxmatch':
+    def nm (raw, off):
+      o = nx.nx_match(); return o.unpack(raw, off, n), o
+    return [('unpack', nm, True)]
+  raise ValueError(cat)
+
+
+def run_case (P, K, v):
+  V = Verdict()
+  own = K.opts.get('owner', K.name.split('/')[0])
+  def raised (phase, e):
+    site, inpox = exc_site(P, e)
+    if not inpox: raise e
+    V.fail("raises:" + site, "%s of %s raised %s: %s" % (phase, K.name, type(e).__name__, str(e)[:120]))
+  # -- construct ----------------------------------------------------------------------
+  try:
+    r = K.build(P, v)
+  except OutOfScope:
+    V.note = 'out-of-scope'; return V
+  except Exception as e:
+    site, inpox = exc_site(P, e)
+    if not inpox: raise
+    if K.cat in ('nxm', 'nxmatch'):
+      # an NXM entry encodes its value and mask when they are assigned: this is the codec
+      V.fail("raises:" + site, "constructing %s raised %s: %s" % (K.name, type(e).__name__, str(e)[:120]))
+    V.note = 'unconstructible:' + site; return V
+  obj, expfn = r[0], r[1]
+  flags = r[2] if len(r) > 2 else {}
+  V.calls += 1
+  exp, over = None, False
+  if expfn is not None:
+    try: exp = expfn()
+    except S.SpecError: over = True
+  # -- encode -------------------------------------------------------------------------
+  n0 = None
+  try:
+    V.calls += 1; n0 = len(obj)
+  except Exception as e:
+    if not over: raised("len()", e)
+  try:
+    V.calls += 1; b = obj.pack()
+  except Exception as e:
+    if over: V.note = 'rejected:' + type(e).__name__
+    else: raised("pack()", e)
+    return V
+  if over:
+    V.fail("limit:" + own, "%s does not fit its 16-bit length field but pack() returned %d bytes "
+           "(length field wrapped) instead of rejecting it" % (K.name, len(b)))
+    V.raw = b; return V
+  if not isinstance(b, bytes):
+    V.fail("layout:%s:<type>" % own, "pack() returned %s" % type(b).__name__); return V
+  V.raw = b
+  n = len(b)
+  if n0 is not None and n0 != n:
+    V.fail("length:" + own, "%s: len(obj) = %d but pack() produced %d bytes (the length field is written from len())" % (K.name, n0, n))
+    return V                  # the encoding is already wrong; decoding it proves nothing more
+  if exp is not None:
+    d = layout_diff(exp, b, flags.get('dont_care', 0))
+    if d is not None:
+      o, f = layout_owner(K, d[0])
+      V.fail("layout:%s:%s" % (o, f), "%s: field %s is %s on the wire, specification layout gives %s (offset %d)"
+             % (K.name, d[0], d[2].hex() or '<missing>', d[1].hex() or '<nothing>', d[3]))
+      return V                # the encoding is already wrong; decoding it proves nothing more
+  elif K.cat in ('msg', 'msg1', 'nxmsg', 'action', 'nxaction') and n >= 4:
+    if struct.unpack('!H', b[2:4])[0] != n:
+      V.fail("layout:%s:length" % own, "length field %d, %d bytes" % (struct.unpack('!H', b[2:4])[0], n))
+  try:
+    V.calls += 1; n1 = len(obj)
+    if n1 != n: V.fail("length:" + own, "len(obj) = %d after pack() produced %d bytes" % (n1, n))
+  except Exception as e:
+    if n0 is not None: raised("len()", e)
+  # -- decode -------------------------------------------------------------------------
+  want = K.cls(P)
+  ov = None
+  seen = set()
+  def dfail (clause, suffix, text):
+    # a clause that already failed through an earlier entry point is the same defect
+    if clause in seen: return
+    seen.add(clause); V.fail(suffix, text)
+  for label, fn, strict in decoders(P, K, n):
+    strict_eq = strict and flags.get('eq', True) and K.opts.get('eq', True)
+    for raw, off in ((b, 0), (PRE + b + POST, len(PRE))):
+      emb = " (embedded at offset %d with trailing bytes)" % off if off else ""
+      try:
+        V.calls += 1; off2, o2 = fn(raw, off)
+      except Exception as e:
+        raised("decode via %s%s" % (label, emb), e); break
+      if off2 != off + n:
+        dfail("consumed", "consumed:%s:%s" % (own, label), "%s: decode via %s%s consumed %s bytes of a %d-byte encoding"
+               % (K.name, label, emb, off2 - off if isinstance(off2, int) else off2, n)); break
+      if strict and want is not None and type(o2) is not want:
+        dfail("class", "class:%s:%s" % (own, label), "%s: decode via %s returned %s" % (K.name, label, type(o2).__name__)); break
+      if strict_eq:
+        try:
+          V.calls += 1
+          same = (not flags.get('libeq', True)) or ((o2 == obj) and not (o2 != obj))
+        except Exception as e:
+          raised("== after decode via %s" % label, e); break
+        if not same:
+          if ov is None: ov = view(P, obj)
+          dfail("equal", "equal:%s:%s" % (own, label), "%s: object decoded via %s%s is not == the original (first differing public field: %s)"
+                % (K.name, label, emb, view_diff(ov, view(P, o2)))); break
+        if flags.get('view', True):
+          if ov is None: ov = view(P, obj)
+          vd = view_diff(ov, view(P, o2))
+          if vd:
+            dfail("equal", "equal:%s:field%s" % (own, re.match(r'\.?[^.\[]*', vd).group(0)), "%s: decoded object differs from the original in public field %s (decode via %s%s)"
+                   % (K.name, vd, label, emb)); break
+      try:
+        V.calls += 1; b2 = o2.pack()
+      except Exception as e:
+        raised("re-encode after decode via %s" % label, e); break
+      if b2 != b:
+        i = next((j for j in range(min(len(b), len(b2))) if b[j] != b2[j]), min(len(b), len(b2)))
+        dfail("reencode", "reencode:%s:%s" % (own, label), "%s: re-encoding the object decoded via %s%s differs from the original bytes at offset %d"
+               % (K.name, label, emb, i)); break
+  return V
+
+
+# ---------------------------------------------------------------------------------------
+# value conversion: vector values (plain data) -> pox objects / specification values
+# ---------------------------------------------------------------------------------------
+def topox (P, t, x):
+  if t == 'mac': return P.EthAddr(bytes.fromhex(x))
+  if t == 'ip': return P.IPAddr(x)              # host-order int -> a.b.c.d
+  return x
+
+def tospec (t, x):
+  if t == 'mac': return bytes.fromhex(x)
+  return x
+
+HDR = [('version', ('enum', 1, [0, 0xff, 0x80, 0x37])), ('xid', 'u32')]
+LEN = lambda base, *alts: ('enum', base, list(alts))      # payload length domain
+BUF = ('enum', 0x6d8aa7c4, [0, 1, 0xffffffff, 0x80000000, None])
+
+def hkw (v): return dict(version=v['version'], xid=v['xid'])
+def hsp (v, t): return dict(version=v['version'], xid=v['xid'], type=t)
+def bufspec (x): return S.OFP_NO_BUFFER if x is None else x
+
+def ofcls (name): return lambda P: getattr(P.of, name)
+def nxcls (name): return lambda P: getattr(P.nx, name)
+
+def simple (clsname, cat, sname, fields, wrap=None, mod='of', base=None, **opts):
+  """A kind whose pox attribute names equal the specification's field names."""
+  msg = cat in ('msg',)
+  fl = (HDR if msg else []) + fields
+  def build (P, v):
+    kw = hkw(v) if msg else {}
+    for f, t in fields: kw[f] = topox(P, t, v[f])
+    obj = getattr(getattr(P, mod), clsname)(**kw)
+    def exp ():
+      sv = dict((f, tospec(t, v[f])) for f, t in fields)
+      if wrap: return wrap(sv, v)
+      return S.enc(sname, sv)
+    return obj, exp
+  return Kind(clsname, cat, fl, build, lambda P: getattr(getattr(P, mod), clsname), base=base, **opts)
+
+def msgwrap (sname, mtype, tailf=None):
+  def w (sv, v):
+    sv['header'] = hsp(v, mtype)
+    return S.message(sname, sv, tailf(v) if tailf else ())
+  return w
+
+# ---- sub-object builders ------------------------------------------------------------------
+def sub (P, atom):
+  """atom = [kind name, vector] -> (object, expected pieces fn, strict?)"""
+  K = KINDS[atom[0]]
+  r = K.build(P, atom[1])
+  return r[0], r[1], (K.cat not in ('nxaction',) and (r[2] if len(r) > 2 else {}).get('eq', True))
+
+def expand (lst):
+  """action / element lists may contain {'rep': [atom, n]}"""
+  out = []
+  for a in lst:
+    if isinstance(a, dict) and 'rep' in a: out.extend([a['rep'][0]] * a['rep'][1])
+    else: out.append(a)
+  return out
+
+def sublist (P, atoms, path):
+  atoms = expand(atoms)
+  objs, exps, strict = [], [], True
+  cache = {}
+  for a in atoms:
+    key = repr(a)
+    if key not in cache: cache[key] = sub(P, a)
+    o, e, s = cache[key]
+    if len(atoms) > 64:
+      o = sub(P, a)[0]                  # fresh object per element, cached expectation
+    objs.append(o); exps.append((a[0], e)); strict = strict and s
+  def exp ():
+    out = []
+    memo = {}
+    for i, (name, e) in enumerate(exps):
+      if id(e) not in memo: memo[id(e)] = e()
+      out.extend(S.prefixed('%s[%d]:%s.' % (path, i, name), memo[id(e)]))
+    return out
+  return objs, exp, strict
+
+# ---- ofp_match ---------------------------------------------------------------------------
+def mk_match (P, m):
+  kw = {}
+  for f, x in m.items():
+    if x is None: continue
+    if f in ('dl_src', 'dl_dst'): kw[f] = P.EthAddr(bytes.fromhex(x))
+    elif f in ('nw_src', 'nw_dst'): kw[f] = (P.IPAddr(x[0]), x[1])
+    else: kw[f] = x
+  return P.of.ofp_match(**kw)
+
+def sp_match (m):
+  d = {}
+  for f, x in m.items():
+    if x is None: continue
+    if f in ('dl_src', 'dl_dst'): d[f] = bytes.fromhex(x)
+    elif f in ('nw_src', 'nw_dst'): d[f] = (x[0], x[1])
+    else: d[f] = x
+  if not S.match_prereq_consistent(d):
+    raise OutOfScope("match is not prerequisite-consistent")
+  return d
+
+def _b_match (P, v):
+  d = sp_match(v['m'])
+  return mk_match(P, v['m']), (lambda: S.enc('ofp_match', S.match_vals(d)))
+Kind('ofp_match', 'struct', [], _b_match, ofcls('ofp_match'))
+
+M_FREE = [('in_port', 'u16'), ('dl_src', 'mac'), ('dl_dst', 'mac'), ('dl_vlan', 'u16'),
+          ('dl_vlan_pcp', 'u8'), ('nw_tos', 'u8'), ('nw_src_ip', 'ip'), ('nw_src_bits', ('enum', 32, [0, 1, 16, 31])),
+          ('nw_dst_ip', 'ip'), ('nw_dst_bits', ('enum', 32, [0, 1, 16, 31])), ('tp_src', 'u16'), ('tp_dst', 'u16')]
+M_L2 = ('in_port', 'dl_src', 'dl_dst', 'dl_vlan', 'dl_vlan_pcp')
+# context -> (dl_type values, nw_proto values, free logical fields)
+M_CTX = [
+  ('tcp', [0x0800], [6], M_L2 + ('nw_tos', 'nw_src', 'nw_dst', 'tp_src', 'tp_dst')),
+  ('udp', [0x0800], [17], M_L2 + ('nw_tos', 'nw_src', 'nw_dst', 'tp_src', 'tp_dst')),
+  ('icmp', [0x0800], [1], M_L2 + ('nw_tos', 'nw_src', 'nw_dst', 'tp_src', 'tp_dst')),
+  ('ip', [0x0800], [0x59, 0, 255, 0x80, None], M_L2 + ('nw_tos', 'nw_src', 'nw_dst')),
+  ('arp', [0x0806], [1, 2, 0x59, 255, None], M_L2 + ('nw_src', 'nw_dst')),
+  ('l2', [0x88cc, 0, 0xffff, 0x8000, 0x86dd, 0x05ff, 1, None], [None], M_L2),
+]
+
+def m_from_flat (ctx_dl, ctx_proto, free, fv, absent=()):
+  """flat vector over M_FREE -> logical match restricted to the context's free fields"""
+  m = {}
+  if ctx_dl is not None: m['dl_type'] = ctx_dl
+  if ctx_proto is not None: m['nw_proto'] = ctx_proto
+  for f in free:
+    if f in absent: continue
+    if f in ('nw_src', 'nw_dst'): m[f] = [fv[f + '_ip'], fv[f + '_bits']]
+    else: m[f] = fv[f]
+  return m
+
+def match_contexts ():
+  for name, dls, protos, free in M_CTX:
+    for dl in dls:
+      for pr in protos:
+        yield name, dl, pr, free
+
+def match_sweep (k, subsets=True, prefixes=True):
+  """The ofp_match lattice: per context, (a) every subset of the free fields wildcarded,
+  (b) every value vector within k deviations of the base, (c) every nw prefix pair."""
+  fb = base_vector(M_FREE)
+  for name, dl, pr, free in match_contexts():
+    if subsets:
+      n = len(free)
+      for bits in range(1 << n):
+        yield m_from_flat(dl, pr, free, fb, [free[i] for i in range(n) if bits >> i & 1])
+    used = [(f, t) for f, t in M_FREE if f in free or f[:6] in free]
+    first = True
+    for fv in lattice(used, k):
+      if first: first = False; continue      # the base is in (a)
+      full = dict(fb); full.update(fv)
+      yield m_from_flat(dl, pr, free, full)
+  if prefixes:
+    for a in range(33):
+      for b in range(33):
+        fv = dict(fb); fv['nw_src_bits'] = a; fv['nw_dst_bits'] = b
+        yield m_from_flat(0x0800, 6, M_CTX[0][3], fv)
+
+def match_variants ():
+  """A small representative set used as the domain of a container's `match` field."""
+  fb = base_vector(M_FREE)
+  out = []
+  free0 = M_CTX[0][3]
+  out.append(m_from_flat(0x0800, 6, free0, fb))
+  out.append({})
+  for f in free0: out.append(m_from_flat(0x0800, 6, free0, fb, [f]))
+  for name, dl, pr, free in match_contexts():
+    out.append(m_from_flat(dl, pr, free, fb))
+  fv = dict(fb); fv['nw_src_bits'] = 24; fv['nw_dst_bits'] = 1
+  out.append(m_from_flat(0x0800, 17, free0, fv))
+  fv = dict(fb); fv['nw_src_bits'] = 0
+  out.append(m_from_flat(0x0806, 1, M_CTX[4][3], fv))
+  seen, res = set(), []
+  for m in out:
+    if repr(sorted(m.items())) not in seen:
+      seen.add(repr(sorted(m.items()))); res.append(m)
+  return res
+
+_MV = match_variants()
+MATCH = ('enum', _MV[0], _MV[1:])
+
+def match_pair (P, m, flow_mod=False):
+  d = sp_match(m)
+  return mk_match(P, m), S.match_vals(d), (S.match_dont_care(d) if flow_mod else 0)
+
+
+# ---------------------------------------------------------------------------------------
+# OpenFlow 1.0 actions
+# ---------------------------------------------------------------------------------------
+def _b_output (P, v):
+  o = P.of.ofp_action_output(port=v['port'], max_len=v['max_len'])
+  # max_len is only meaningful for OFPP_CONTROLLER; the library documents that pack() "may
+  # normalize fields" and zeroes it for every other port (scoping decision, see assumptions)
+  ml = v['max_len'] if v['port'] == S.OFPP_CONTROLLER else 0
+  return o, (lambda: S.action('OUTPUT', dict(port=v['port'], max_len=ml)))
+Kind('ofp_action_output', 'action',
+     [('port', ('enum', S.OFPP_CONTROLLER, [0, 1, 0xffff, 0x8000, 0x3e5b])), ('max_len', 'u16')],
+     _b_output, ofcls('ofp_action_output'))
+
+simple('ofp_action_enqueue', 'action', None, [('port', 'u16'), ('queue_id', 'u32')],
+       wrap=lambda sv, v: S.action('ENQUEUE', sv))
+simple('ofp_action_vlan_vid', 'action', None, [('vlan_vid', 'u16')],
+       wrap=lambda sv, v: S.action('SET_VLAN_VID', sv))
+simple('ofp_action_vlan_pcp', 'action', None, [('vlan_pcp', 'u8')],
+       wrap=lambda sv, v: S.action('SET_VLAN_PCP', sv))
+simple('ofp_action_nw_tos', 'action', None, [('nw_tos', 'u8')],
+       wrap=lambda sv, v: S.action('SET_NW_TOS', sv))
+Kind('ofp_action_strip_vlan', 'action', [],
+     lambda P, v: (P.of.ofp_action_strip_vlan(), lambda: S.action('STRIP_VLAN')),
+     ofcls('ofp_action_strip_vlan'))
+
+def _typed_action (clsname, types, field, ftype):
+  names = dict((S.OFPAT[n], n) for n in types)
+  def build (P, v):
+    o = getattr(P.of, clsname)(v['type'], topox(P, ftype, v[field]))
+    return o, (lambda: S.action(names[v['type']], {field: tospec(ftype, v[field])}))
+  codes = sorted(names)
+  Kind(clsname, 'action', [('type', ('enum', codes[0], codes[1:])), (field, ftype)], build, ofcls(clsname))
+_typed_action('ofp_action_dl_addr', ('SET_DL_SRC', 'SET_DL_DST'), 'dl_addr', 'mac')
+_typed_action('ofp_action_nw_addr', ('SET_NW_SRC', 'SET_NW_DST'), 'nw_addr', 'ip')
+_typed_action('ofp_action_tp_port', ('SET_TP_SRC', 'SET_TP_DST'), 'tp_port', 'u16')
+
+def _b_vendor_action (P, v):
+  body = payload(v['body'])
+  o = P.of.ofp_action_vendor_generic(vendor=v['vendor'], body=body)
+  return o, (lambda: S.action('VENDOR', dict(vendor=v['vendor']), body))
+Kind('ofp_action_vendor_generic', 'action', [('vendor', 'u32'), ('body', LEN(8, 0, 16, 24))],
+     _b_vendor_action, ofcls('ofp_action_vendor_generic'))
+
+def _b_generic_action (P, v):
+  data = payload(v['data'])
+  o = P.of.ofp_action_generic(type=v['type'], data=data)
+  def exp ():
+    if 4 + len(data) > 0xffff: raise S.SpecError("action too long")
+    return [('type', struct.pack('!H', v['type'])), ('len', struct.pack('!H', 4 + len(data))), ('data', data)]
+  return o, exp
+Kind('ofp_action_generic', 'action', [('type', ('enum', 0x7777, [12, 0xfffe, 0x8000])), ('data', LEN(4, 12, 20))],
+     _b_generic_action, ofcls('ofp_action_generic'))
+
+# ---------------------------------------------------------------------------------------
+# ports, queues
+# ---------------------------------------------------------------------------------------
+PHY = [('port_no', 'u16'), ('hw_addr', 'mac'), ('name', 's16'), ('config', 'u32'), ('state', 'u32'),
+       ('curr', 'u32'), ('advertised', 'u32'), ('supported', 'u32'), ('peer', 'u32')]
+simple('ofp_phy_port', 'struct', 'ofp_phy_port', PHY)
+
+def phy_variants (n):
+  """n distinct port vectors (deterministic: the first vectors of the 1-deviation lattice)"""
+  out = []
+  for i, v in enumerate(KINDS['ofp_phy_port'].lattice(1)):
+    if i % 3 == 0: out.append(['ofp_phy_port', v])
+    if len(out) == n: break
+  return out
+
+simple('ofp_queue_prop_min_rate', 'qprop', None, [('rate', 'u16')],
+       wrap=lambda sv, v: S.queue_prop_min_rate(sv['rate']))
+Kind('ofp_queue_prop_none', 'qprop', [],
+     lambda P, v: (P.of.ofp_queue_prop_none(), lambda: S.queue_prop_none()), ofcls('ofp_queue_prop_none'))
+def _b_qprop_generic (P, v):
+  data = payload(v['data'])
+  o = P.of.ofp_queue_prop_generic(property=v['property'], data=data)
+  return o, (lambda: [('property', struct.pack('!H', v['property'])), ('len', struct.pack('!H', 4 + len(data))), ('data', data)])
+Kind('ofp_queue_prop_generic', 'qprop', [('property', ('enum', 0x7777, [2, 0xffff])), ('data', LEN(4, 12))],
+     _b_qprop_generic, ofcls('ofp_queue_prop_generic'))
+
+def prop_lists ():
+  mr = lambda r: ['ofp_queue_prop_min_rate', {'rate': r}]
+  return [[mr(0x1234)], [], [mr(0), mr(0xffff)], [mr(1), mr(0x8000), mr(0x4321)]]
+_PL = prop_lists()
+
+def _b_queue (P, v):
+  props, pexp, strict = sublist(P, v['properties'], 'properties')
+  o = P.of.ofp_packet_queue(queue_id=v['queue_id'], properties=props)
+  def exp ():
+    pp = pexp()
+    return S.enc('ofp_packet_queue', dict(queue_id=v['queue_id'], len=8 + S.plen(pp))) + pp
+  return o, exp
+Kind('ofp_packet_queue', 'struct', [('queue_id', 'u32'), ('properties', ('enum', _PL[0], _PL[1:]))],
+     _b_queue, ofcls('ofp_packet_queue'))
+
+def queue_lists ():
+  q = lambda i, pl: ['ofp_packet_queue', {'queue_id': i, 'properties': pl}]
+  return [[q(0x11223344, _PL[0])], [], [q(0, _PL[1]), q(0xffffffff, _PL[2])],
+          [q(1, _PL[3]), q(0x80000000, _PL[0]), q(7, _PL[1])]]
+_QL = queue_lists()
+
+# ---------------------------------------------------------------------------------------
+# action list variants used as the domain of a container's `actions` field
+# ---------------------------------------------------------------------------------------
+def atom (name, **over):
+  return [name, KINDS[name].basev(**over)]
+
+def action_atoms (nicira=True):
+  a = [atom('ofp_action_output'), atom('ofp_action_output', port=0x3e5b),
+       atom('ofp_action_vlan_vid'), atom('ofp_action_vlan_pcp'), atom('ofp_action_strip_vlan'),
+       atom('ofp_action_dl_addr', type=4), atom('ofp_action_dl_addr', type=5),
+       atom('ofp_action_nw_addr', type=6), atom('ofp_action_nw_addr', type=7),
+       atom('ofp_action_nw_tos'), atom('ofp_action_tp_port', type=9), atom('ofp_action_tp_port', type=10),
+       atom('ofp_action_enqueue'), atom('ofp_action_vendor_generic'), atom('ofp_action_generic')]
+  if nicira: a.append(atom('nx_action_resubmit'))
+  return a
+
+def action_seqs (maxlen, nicira=True):
+  A = action_atoms(nicira)
+  out = [[]]
+  frontier = [[]]
+  for _ in range(maxlen):
+    frontier = [s + [a] for s in frontier for a in A]
+    out.extend(frontier)
+  return out
+
+
+# ---------------------------------------------------------------------------------------
+# Nicira actions
+# ---------------------------------------------------------------------------------------
+NXC = lambda base: ('enum', base, [x for x in ('NXM_NX_REG3', 'NXM_OF_ETH_DST', 'NXM_NX_TUN_ID', 'NXM_OF_IN_PORT') if x != base])
+def nxbits (name): return 8 * S.NXM_FIELDS[name][2]
+
+def nxa (clsname, sname, subtype, fields, tospec_=None, **opts):
+  """Nicira action whose pox attribute names equal the nicira-ext.h field names
+  (sname None: no layout claim, the other clauses still apply)."""
+  def build (P, v):
+    kw = dict((f, (getattr(P.nx, v[f]) if isinstance(t, tuple) and str(t[1]).startswith(('NXM_', 'OXM_')) else v[f]))
+              for f, t in fields)
+    o = getattr(P.nx, clsname)(**kw)
+    if sname is None: return o, None
+    def exp ():
+      sv = tospec_(v) if tospec_ else dict((f, v[f]) for f, t in fields)
+      st = sv.pop('subtype', subtype)
+      return S.nx_action(sname, st, sv)
+    return o, exp
+  return Kind(opts.pop('name', clsname), 'nxaction', fields, build, nxcls(clsname), **opts)
+
+nxa('nx_action_resubmit', 'nx_action_resubmit', None,
+    [('subtype', ('enum', S.NXAST['RESUBMIT'], [S.NXAST['RESUBMIT_TABLE']])), ('in_port', 'u16'), ('table', 'u8')])
+nxa('nx_action_set_tunnel', 'nx_action_set_tunnel', S.NXAST['SET_TUNNEL'], [('tun_id', 'u32')])
+nxa('nx_action_set_tunnel64', 'nx_action_set_tunnel64', S.NXAST['SET_TUNNEL64'], [('tun_id', 'u64')])
+nxa('nx_reg_move', 'nx_action_reg_move', S.NXAST['REG_MOVE'],
+    [('nbits', 'u16'), ('src_ofs', 'u16'), ('dst_ofs', 'u16'), ('src', NXC('NXM_NX_REG3')), ('dst', NXC('NXM_OF_ETH_DST'))],
+    lambda v: dict(n_bits=v['nbits'], src_ofs=v['src_ofs'], dst_ofs=v['dst_ofs'],
+                   src=S.nxm_field_header(v['src']), dst=S.nxm_field_header(v['dst'])))
+OFS = ('enum', 0x155, [0, 1, 1023, 512])
+NBITS = ('enum', 43, [1, 2, 64, 32])
+nxa('nx_reg_load', 'nx_action_reg_load', S.NXAST['REG_LOAD'],
+    [('offset', OFS), ('nbits', NBITS), ('dst', NXC('NXM_NX_REG3')), ('value', 'u64')],
+    lambda v: dict(ofs_nbits=v['offset'] << 6 | (v['nbits'] - 1), dst=S.nxm_field_header(v['dst']), value=v['value']))
+nxa('nx_reg_load', 'nx_action_reg_load', S.NXAST['REG_LOAD'],
+    [('offset', ('enum', 3, [0, 1, 15])), ('nbits', ('enum', None, [])), ('dst', NXC('NXM_NX_REG3')), ('value', 'u64')],
+    lambda v: dict(ofs_nbits=v['offset'] << 6 | (nxbits(v['dst']) - v['offset'] - 1), dst=S.nxm_field_header(v['dst']), value=v['value']),
+    name='nx_reg_load/nbits-inferred')
+nxa('nx_output_reg', 'nx_action_output_reg', S.NXAST['OUTPUT_REG'],
+    [('offset', OFS), ('nbits', NBITS), ('reg', NXC('NXM_NX_TUN_ID')), ('max_len', 'u16')],
+    lambda v: dict(ofs_nbits=v['offset'] << 6 | (v['nbits'] - 1), src=S.nxm_field_header(v['reg']), max_len=v['max_len']))
+nxa('nx_action_controller', 'nx_action_controller', S.NXAST['CONTROLLER'],
+    [('max_len', 'u16'), ('controller_id', 'u16'), ('reason', 'u8')])
+nxa('nx_action_fin_timeout', 'nx_action_fin_timeout', S.NXAST['FIN_TIMEOUT'],
+    [('fin_idle_timeout', 'u16'), ('fin_hard_timeout', 'u16')])
+nxa('nx_action_exit', 'nx_action_header', S.NXAST['EXIT'], [])
+nxa('nx_action_dec_ttl', 'nx_action_header', S.NXAST['DEC_TTL'], [])
+nxa('nx_action_push_mpls', None, None, [('ethertype', 'u16')])
+nxa('nx_action_pop_mpls', None, None, [('ethertype', 'u16')])
+nxa('nx_action_mpls_label', None, None, [('label', 'u32')])
+nxa('nx_action_mpls_tc', None, None, [('tc', 'u8')])
+
+def _b_bundle (P, v):
+  kw = dict(algorithm=v['algorithm'], fields=v['fields'], basis=v['basis'],
+            slaves=[P.nx.NXM_OF_IN_PORT(x) for x in v['slaves']])
+  if v['load']:
+    kw.update(load=True, dst=getattr(P.nx, v['load'][0]), offset=v['load'][1], nbits=v['load'][2])
+  return P.nx.nx_action_bundle(**kw), None
+Kind('nx_action_bundle', 'nxaction',
+     [('algorithm', 'u16'), ('fields', 'u16'), ('basis', 'u16'),
+      ('slaves', ('enum', [1, 2, 3, 4], [[], [5], [1, 2], [1, 2, 3, 4, 5, 6, 7, 8]])),
+      ('load', ('enum', None, [['NXM_NX_REG0', 0, 16], ['NXM_NX_REG3', 4, 8]]))],
+     _b_bundle, nxcls('nx_action_bundle'))
+
+# learn: flow_mod_spec atoms  {src: [...], dst: [...], n_bits: n}
+def _sp (src, dst, n): return dict(src=src, dst=dst, n_bits=n)
+LEARN_SPECS = [
+  _sp(['field', 'NXM_OF_VLAN_TCI', 0], ['match', 'NXM_OF_VLAN_TCI', 0], 12),
+  _sp(['field', 'NXM_OF_ETH_SRC', 0], ['match', 'NXM_OF_ETH_DST', 0], 48),
+  _sp(['field', 'NXM_OF_IN_PORT', 0], ['output'], 16),
+  _sp(['imm', '0800', 16], ['match', 'NXM_OF_ETH_TYPE', 0], 16),
+  _sp(['imm', 'c0a80001', 32], ['load', 'NXM_NX_REG1', 0], 32),
+  _sp(['field', 'NXM_NX_REG0', 4], ['load', 'NXM_NX_REG2', 16], 8),
+  _sp(['field', 'NXM_NX_TUN_ID', 0], ['load', 'NXM_NX_TUN_ID', 0], 40),
+]
+
+def mk_learn_spec (P, s):
+  nx = P.nx
+  n = s['n_bits']
+  if s['src'][0] == 'field': src = nx.nx_learn_src_field(getattr(nx, s['src'][1]), s['src'][2], n)
+  else: src = nx.nx_learn_src_immediate(bytes.fromhex(s['src'][1]), n)
+  d = s['dst']
+  if d[0] == 'match': dst = nx.nx_learn_dst_match(getattr(nx, d[1]), d[2], n)
+  elif d[0] == 'load': dst = nx.nx_learn_dst_load(getattr(nx, d[1]), d[2], n)
+  else: dst = nx.nx_learn_dst_output()
+  return nx.flow_mod_spec(src, dst, n)
+
+def sp_learn_spec (s):
+  src = ('field', s['src'][1], s['src'][2]) if s['src'][0] == 'field' else ('imm', bytes.fromhex(s['src'][1]))
+  return S.learn_spec(src, tuple(s['dst']), s['n_bits'])
+
+LEARN_F = [('idle_timeout', 'u16'), ('hard_timeout', 'u16'), ('priority', 'u16'), ('cookie', 'u64'),
+           ('flags', 'u16'), ('table_id', 'u8'), ('fin_idle_timeout', 'u16'), ('fin_hard_timeout', 'u16')]
+def _b_learn (P, v):
+  o = P.nx.nx_action_learn(**dict((f, v[f]) for f, t in LEARN_F))
+  for s in v['spec']: o.spec.append(mk_learn_spec(P, s))
+  def exp ():
+    tail = b''.join(sp_learn_spec(s) for s in v['spec'])
+    tail += b'\0' * S.pad8(S.sizeof('nx_action_learn') + len(tail))
+    return S.nx_action('nx_action_learn', S.NXAST['LEARN'], dict((f, v[f]) for f, t in LEARN_F), tail)
+  return o, exp
+Kind('nx_action_learn', 'nxaction',
+     LEARN_F + [('spec', ('enum', LEARN_SPECS[:3], [[], LEARN_SPECS[3:5], LEARN_SPECS[5:6]]))],
+     _b_learn, nxcls('nx_action_learn'))
+
+def learn_spec_seqs (maxlen):
+  out, frontier = [[]], [[]]
+  for _ in range(maxlen):
+    frontier = [s + [a] for s in frontier for a in LEARN_SPECS]
+    out.extend(frontier)
+  return out
+
+# ---------------------------------------------------------------------------------------
+# NXM entries and nx_match
+# ---------------------------------------------------------------------------------------
+def nxm_family (P, cls):
+  nx = P.nx
+  if issubclass(cls, nx._nxm_ether): return 'ether'
+  if issubclass(cls, nx._nxm_ipv6): return 'ip6'
+  if issubclass(cls, nx._nxm_ip): return 'ip'
+  if issubclass(cls, nx._nxm_numeric): return 'num'
+  return 'raw'
+
+def nxm_val (P, fam, raw):
+  if fam == 'ether': return P.EthAddr(raw)
+  if fam == 'ip': return P.IPAddr(raw)
+  if fam == 'ip6': return P.IPAddr6.from_raw(raw)
+  if fam == 'num': return int.from_bytes(raw, 'big')
+  return raw
+
+def cidr_mask (nbytes, bits):
+  bits = max(0, min(bits, 8 * nbytes))
+  return ((((1 << bits) - 1) << (8 * nbytes - bits))).to_bytes(nbytes, 'big')
+
+def mk_nxm (P, e):
+  cls = getattr(P.nx, e['cls'])
+  fam = nxm_family(P, cls)
+  val = bytes.fromhex(e['value'])
+  m = e.get('mask')
+  if m is None: return cls(nxm_val(P, fam, val)), None
+  if isinstance(m, int):
+    return cls(nxm_val(P, fam, val), m), cidr_mask(len(val), m)
+  mb = bytes.fromhex(m)
+  return cls(nxm_val(P, fam, val), nxm_val(P, fam, mb)), mb
+
+def _b_nxm (P, v):
+  o, mb = mk_nxm(P, v)
+  ones = mb is not None and mb == b'\xff' * len(mb)
+  exp = None
+  if v['cls'] in S.NXM_FIELDS:
+    exp = lambda: S.nxm_entry(v['cls'], bytes.fromhex(v['value']), mb)
+  # an all-ones mask is equivalent to no mask and is not sent: field-wise equality treats the
+  # two as equal, the library's == (which does not) is not consulted for that case
+  return o, exp, dict(libeq=not ones)
+Kind('nxm_entry', 'nxm', [], _b_nxm, lambda P: None)
+
+def nxm_sweep (P, thorough):
+  """every registered NXM class x boundary values x {no mask, all-ones, zero, partial, CIDR}"""
+  nx = P.nx
+  for name in sorted(nx._nxm_name_to_type):
+    cls = nx._nxm_type_to_class[nx._nxm_name_to_type[name]]
+    n = cls._nxm_length
+    fam = nxm_family(P, cls)
+    vals = [fpbytes(3, n), b'\0' * n, b'\0' * (n - 1) + b'\1', b'\xff' * n, b'\x80' + b'\0' * (n - 1)]
+    for val in vals:
+      yield dict(cls=name, value=val.hex(), mask=None)
+    if not cls().allow_mask: continue
+    masks = [b'\xff' * n, b'\0' * n, bytes(((0xf0 if i % 2 == 0 else 0x3c) for i in range(n))),
+             b'\xff' * (n // 2) + b'\0' * (n - n // 2), b'\0' * (n - 1) + b'\x01']
+    if issubclass(cls, nx._nxm_tcp_flags):
+      masks = [b'\x0f\xff' if m == b'\xff' * n else bytes([m[0] & 0x0f]) + m[1:] for m in masks]
+    for val in vals:
+      for m in masks:
+        mv = bytes(a & b for a, b in zip(val, m))
+        yield dict(cls=name, value=mv.hex(), mask=m.hex())
+    if fam in ('ip', 'ip6'):
+      for bits in ([0, 1, 8 * n // 2, 8 * n - 1, 8 * n] if not thorough else range(8 * n + 1)):
+        for val in vals[:3 if not thorough else 5]:
+          mv = bytes(a & b for a, b in zip(val, cidr_mask(n, bits)))
+          yield dict(cls=name, value=mv.hex(), mask=bits)
+
+def _b_nxmatch (P, v):
+  ents, mbs = [], []
+  for e in v['parts']:
+    o, mb = mk_nxm(P, e); ents.append(o); mbs.append(mb)
+  m = P.nx.nx_match(*ents)
+  def exp ():
+    out = []
+    for i, (e, mb) in enumerate(zip(v['parts'], mbs)):
+      out.extend(S.nxm_entry(e['cls'], bytes.fromhex(e['value']), mb, 'parts[%d]:nxm_entry.' % i))
+    return out
+  return m, exp
+Kind('nx_match', 'nxmatch', [], _b_nxmatch, nxcls('nx_match'))
+
+def nxm_parts ():
+  e = lambda c, v, m=None: dict(cls=c, value=v, mask=m)
+  return [e('NXM_OF_IN_PORT', '0007'), e('NXM_OF_ETH_TYPE', '0800'), e('NXM_OF_ETH_DST', '0123456789ab'),
+          e('NXM_OF_ETH_SRC', '010000000000', '010000000000'), e('NXM_OF_IP_SRC', '0a010200', 24),
+          e('NXM_OF_IP_PROTO', '06'), e('NXM_OF_TCP_DST', '0050'), e('NXM_NX_REG1', '0000beef', '0000ffff'),
+          e('NXM_NX_TUN_ID', '0000000000abcdef'), e('NXM_OF_VLAN_TCI', '1005', '1fff')]
+
+def nxmatch_lists (maxlen):
+  A = nxm_parts()
+  out, frontier = [[]], [[]]
+  for _ in range(maxlen):
+    frontier = [s + [a] for s in frontier for a in A if a['cls'] not in [x['cls'] for x in s]]
+    out.extend(frontier)
+  return out
+
+
+# ---------------------------------------------------------------------------------------
+# container field domains (defined after all action kinds exist)
+# ---------------------------------------------------------------------------------------
+_AA = action_atoms()
+ACTS = ('enum', [_AA[0], _AA[7]], [[]] + [[a] for a in _AA] + [[_AA[12], _AA[1], _AA[5]]])
+_PV = phy_variants(3)
+PORTS = ('enum', _PV[:1], [[], _PV[:2], _PV[:3]])
+
+# ---------------------------------------------------------------------------------------
+# OpenFlow 1.0 messages
+# ---------------------------------------------------------------------------------------
+for _n, _t in (('ofp_hello', 'HELLO'), ('ofp_features_request', 'FEATURES_REQUEST'),
+               ('ofp_get_config_request', 'GET_CONFIG_REQUEST'), ('ofp_barrier_request', 'BARRIER_REQUEST'),
+               ('ofp_barrier_reply', 'BARRIER_REPLY')):
+  simple(_n, 'msg', None, [], wrap=msgwrap('ofp_hello', S.OFPT[_t]))
+
+def _payload_msg (clsname, sname, mtype, fields, pfield, base_len=20):
+  fl = HDR + fields + [(pfield, LEN(base_len, 0, 1, 7, 8, 1500))]
+  def build (P, v):
+    kw = hkw(v)
+    for f, t in fields: kw[f] = v[f]
+    data = payload(v[pfield])
+    kw[pfield] = data
+    o = getattr(P.of, clsname)(**kw)
+    def exp ():
+      sv = dict((f, v[f]) for f, t in fields); sv['header'] = hsp(v, mtype)
+      return S.message(sname, sv, S.raw(pfield, data))
+    return o, exp
+  Kind(clsname, 'msg', fl, build, ofcls(clsname), payload=pfield)
+_payload_msg('ofp_echo_request', 'ofp_echo', S.OFPT['ECHO_REQUEST'], [], 'body')
+_payload_msg('ofp_echo_reply', 'ofp_echo', S.OFPT['ECHO_REPLY'], [], 'body')
+_payload_msg('ofp_error', 'ofp_error_msg', S.OFPT['ERROR'], [('type', 'u16'), ('code', 'u16')], 'data')
+_payload_msg('ofp_vendor_generic', 'ofp_vendor_header', S.OFPT['VENDOR'], [('vendor', 'u32')], 'data')
+
+simple('ofp_get_config_reply', 'msg', None, [('flags', 'u16'), ('miss_send_len', 'u16')],
+       wrap=msgwrap('ofp_switch_config', S.OFPT['GET_CONFIG_REPLY']))
+simple('ofp_set_config', 'msg', None, [('flags', 'u16'), ('miss_send_len', 'u16')],
+       wrap=msgwrap('ofp_switch_config', S.OFPT['SET_CONFIG']))
+simple('ofp_port_mod', 'msg', None,
+       [('port_no', 'u16'), ('hw_addr', 'mac'), ('config', 'u32'), ('mask', 'u32'), ('advertise', 'u32')],
+       wrap=msgwrap('ofp_port_mod', S.OFPT['PORT_MOD']))
+simple('ofp_queue_get_config_request', 'msg', None, [('port', 'u16')],
+       wrap=msgwrap('ofp_queue_get_config_request', S.OFPT['QUEUE_GET_CONFIG_REQUEST']))
+
+FEAT = [('datapath_id', 'u64'), ('n_buffers', 'u32'), ('n_tables', 'u8'), ('capabilities', 'u32'), ('actions', 'u32')]
+def _b_features (P, v):
+  ports, pexp, _ = sublist(P, v['ports'], 'ports')
+  kw = hkw(v); kw.update((f, v[f]) for f, t in FEAT); kw['ports'] = ports
+  o = P.of.ofp_features_reply(**kw)
+  def exp ():
+    sv = dict((f, v[f]) for f, t in FEAT); sv['header'] = hsp(v, S.OFPT['FEATURES_REPLY'])
+    return S.message('ofp_switch_features', sv, pexp())
+  return o, exp
+Kind('ofp_features_reply', 'msg', HDR + FEAT + [('ports', PORTS)], _b_features, ofcls('ofp_features_reply'))
+
+def _b_port_status (P, v):
+  pv = dict((f, v['desc.' + f]) for f, t in PHY)
+  desc, dexp = KINDS['ofp_phy_port'].build(P, pv)
+  o = P.of.ofp_port_status(reason=v['reason'], desc=desc, **hkw(v))
+  def exp ():
+    sv = dict(header=hsp(v, S.OFPT['PORT_STATUS']), reason=v['reason'],
+              desc=dict((f, tospec(t, pv[f])) for f, t in PHY))
+    return S.message('ofp_port_status', sv)
+  return o, exp
+Kind('ofp_port_status', 'msg', HDR + [('reason', 'u8')] + [('desc.' + f, t) for f, t in PHY],
+     _b_port_status, ofcls('ofp_port_status'))
+
+def _b_packet_in (P, v):
+  data = payload(v['data'])
+  if v['total_len'] is not None and data and v['total_len'] < len(data):
+    raise OutOfScope("total_len < len(data) is refused by the library's validation")
+  kw = hkw(v)
+  kw.update(buffer_id=v['buffer_id'], total_len=v['total_len'], in_port=v['in_port'], reason=v['reason'], data=data)
+  o = P.of.ofp_packet_in(**kw)
+  def exp ():
+    sv = dict(header=hsp(v, S.OFPT['PACKET_IN']), buffer_id=bufspec(v['buffer_id']),
+              total_len=len(data) if v['total_len'] is None else v['total_len'],
+              in_port=v['in_port'], reason=v['reason'])
+    return S.message('ofp_packet_in', sv, S.raw('data', data))
+  return o, exp
+Kind('ofp_packet_in', 'msg',
+     HDR + [('buffer_id', BUF), ('total_len', ('enum', 0x9c41, [0, 1, 0xffff, 0x8000, None])), ('in_port', 'u16'),
+            ('reason', 'u8'), ('data', LEN(20, 0, 1, 2, 1500))],
+     _b_packet_in, ofcls('ofp_packet_in'), payload='data')
+
+FREM = [('cookie', 'u64'), ('priority', 'u16'), ('reason', 'u8'), ('duration_sec', 'u32'), ('duration_nsec', 'u32'),
+        ('idle_timeout', 'u16'), ('packet_count', 'u64'), ('byte_count', 'u64')]
+def _b_flow_removed (P, v):
+  m, mv, _ = match_pair(P, v['match'])
+  kw = hkw(v); kw.update((f, v[f]) for f, t in FREM); kw['match'] = m
+  o = P.of.ofp_flow_removed(**kw)
+  def exp ():
+    sv = dict((f, v[f]) for f, t in FREM); sv.update(header=hsp(v, S.OFPT['FLOW_REMOVED']), match=mv)
+    return S.message('ofp_flow_removed', sv)
+  return o, exp
+Kind('ofp_flow_removed', 'msg', HDR + [('match', MATCH)] + FREM, _b_flow_removed, ofcls('ofp_flow_removed'))
+
+def _b_packet_out (P, v):
+  data = payload(v['data'])
+  if v['buffer_id'] not in (None, S.OFP_NO_BUFFER) and data:
+    raise OutOfScope("buffer_id and data together are refused by the library's validation")
+  acts, aexp, strict = sublist(P, v['actions'], 'actions')
+  o = P.of.ofp_packet_out(buffer_id=v['buffer_id'], in_port=v['in_port'], actions=acts, data=data, **hkw(v))
+  def exp ():
+    ap = aexp()
+    if S.plen(ap) > 0xffff: raise S.SpecError("actions_len")
+    sv = dict(header=hsp(v, S.OFPT['PACKET_OUT']), buffer_id=bufspec(v['buffer_id']), in_port=v['in_port'],
+              actions_len=S.plen(ap))
+    return S.message('ofp_packet_out', sv, ap + S.raw('data', data))
+  return o, exp, dict(eq=strict)
+Kind('ofp_packet_out/data', 'msg',
+     HDR + [('buffer_id', ('enum', None, [0xffffffff])), ('in_port', 'u16'), ('actions', ACTS), ('data', LEN(20, 0, 1, 2, 1500))],
+     _b_packet_out, ofcls('ofp_packet_out'), payload='data')
+Kind('ofp_packet_out/buffered', 'msg',
+     HDR + [('buffer_id', BUF), ('in_port', 'u16'), ('actions', ACTS), ('data', LEN(0))],
+     _b_packet_out, ofcls('ofp_packet_out'))
+
+FMOD = [('cookie', 'u64'), ('command', 'u16'), ('idle_timeout', 'u16'), ('hard_timeout', 'u16'), ('priority', 'u16'),
+        ('buffer_id', BUF), ('out_port', 'u16'), ('flags', 'u16')]
+def _b_flow_mod (P, v):
+  m, mv, dc = match_pair(P, v['match'], flow_mod=True)
+  acts, aexp, strict = sublist(P, v['actions'], 'actions')
+  kw = hkw(v); kw.update((f, v[f]) for f, t in FMOD); kw.update(match=m, actions=acts)
+  o = P.of.ofp_flow_mod(**kw)
+  def exp ():
+    sv = dict((f, v[f]) for f, t in FMOD)
+    sv.update(header=hsp(v, S.OFPT['FLOW_MOD']), match=mv, buffer_id=bufspec(v['buffer_id']))
+    return S.message('ofp_flow_mod', sv, aexp())
+  return o, exp, dict(eq=strict, dont_care=dc)
+Kind('ofp_flow_mod', 'msg', HDR + [('match', MATCH)] + FMOD + [('actions', ACTS)], _b_flow_mod, ofcls('ofp_flow_mod'))
+
+def _b_qgc_reply (P, v):
+  qs, qexp, _ = sublist(P, v['queues'], 'queues')
+  o = P.of.ofp_queue_get_config_reply(port=v['port'], queues=qs, **hkw(v))
+  def exp ():
+    return S.message('ofp_queue_get_config_reply', dict(header=hsp(v, S.OFPT['QUEUE_GET_CONFIG_REPLY']), port=v['port']), qexp())
+  return o, exp
+Kind('ofp_queue_get_config_reply', 'msg', HDR + [('port', 'u16'), ('queues', ('enum', _QL[0], _QL[1:]))],
+     _b_qgc_reply, ofcls('ofp_queue_get_config_reply'))
+
+# ---------------------------------------------------------------------------------------
+# statistics bodies and the two statistics messages
+# ---------------------------------------------------------------------------------------
+STATS = {}     # body kind -> (OFPST code, 'request'|'reply', reply is a list?)
+def stat (kindname, code, role, is_list=False):
+  STATS[kindname] = (S.OFPST[code], role, is_list)
+
+simple('ofp_desc_stats', 'stats', 'ofp_desc_stats',
+       [('mfr_desc', 's256'), ('hw_desc', 's256'), ('sw_desc', 's256'), ('serial_num', 's32'), ('dp_desc', 's256')])
+stat('ofp_desc_stats', 'DESC', 'reply')
+simple('ofp_desc_stats_request', 'stats', 'ofp_empty', []); stat('ofp_desc_stats_request', 'DESC', 'request')
+simple('ofp_table_stats_request', 'stats', 'ofp_empty', []); stat('ofp_table_stats_request', 'TABLE', 'request')
+
+def _flowreq (clsname, sname, code):
+  fl = [('match', MATCH), ('table_id', 'u8'), ('out_port', 'u16')]
+  def build (P, v):
+    m, mv, _ = match_pair(P, v['match'])
+    o = getattr(P.of, clsname)(match=m, table_id=v['table_id'], out_port=v['out_port'])
+    return o, (lambda: S.enc(sname, dict(match=mv, table_id=v['table_id'], out_port=v['out_port'])))
+  Kind(clsname, 'stats', fl, build, ofcls(clsname)); stat(clsname, code, 'request')
+_flowreq('ofp_flow_stats_request', 'ofp_flow_stats_request', 'FLOW')
+_flowreq('ofp_aggregate_stats_request', 'ofp_aggregate_stats_request', 'AGGREGATE')
+
+FSTAT = [('table_id', 'u8'), ('duration_sec', 'u32'), ('duration_nsec', 'u32'), ('priority', 'u16'),
+         ('idle_timeout', 'u16'), ('hard_timeout', 'u16'), ('cookie', 'u64'), ('packet_count', 'u64'), ('byte_count', 'u64')]
+def _b_flow_stats (P, v):
+  m, mv, _ = match_pair(P, v['match'])
+  acts, aexp, strict = sublist(P, v['actions'], 'actions')
+  kw = dict((f, v[f]) for f, t in FSTAT); kw.update(match=m, actions=acts)
+  o = P.of.ofp_flow_stats(**kw)
+  def exp ():
+    ap = aexp()
+    sv = dict((f, v[f]) for f, t in FSTAT); sv.update(match=mv, length=S.sizeof('ofp_flow_stats') + S.plen(ap))
+    return S.enc('ofp_flow_stats', sv) + ap
+  return o, exp, dict(eq=strict)
+Kind('ofp_flow_stats', 'stats', [('match', MATCH)] + FSTAT + [('actions', ACTS)], _b_flow_stats, ofcls('ofp_flow_stats'))
+stat('ofp_flow_stats', 'FLOW', 'reply', True)
+
+simple('ofp_aggregate_stats', 'stats', 'ofp_aggregate_stats_reply',
+       [('packet_count', 'u64'), ('byte_count', 'u64'), ('flow_count', 'u32')]); stat('ofp_aggregate_stats', 'AGGREGATE', 'reply')
+simple('ofp_table_stats', 'stats', 'ofp_table_stats',
+       [('table_id', 'u8'), ('name', 's32'), ('wildcards', 'u32'), ('max_entries', 'u32'), ('active_count', 'u32'),
+        ('lookup_count', 'u64'), ('matched_count', 'u64')]); stat('ofp_table_stats', 'TABLE', 'reply', True)
+simple('ofp_port_stats_request', 'stats', 'ofp_port_stats_request', [('port_no', 'u16')]); stat('ofp_port_stats_request', 'PORT', 'request')
+simple('ofp_port_stats', 'stats', 'ofp_port_stats',
+       [('port_no', 'u16')] + [(f, 'u64') for f in ('rx_packets tx_packets rx_bytes tx_bytes rx_dropped tx_dropped rx_errors '
+                                                   'tx_errors rx_frame_err rx_over_err rx_crc_err collisions').split()])
+stat('ofp_port_stats', 'PORT', 'reply', True)
+simple('ofp_queue_stats_request', 'stats', 'ofp_queue_stats_request', [('port_no', 'u16'), ('queue_id', 'u32')])
+stat('ofp_queue_stats_request', 'QUEUE', 'request')
+simple('ofp_queue_stats', 'stats', 'ofp_queue_stats',
+       [('port_no', 'u16'), ('queue_id', 'u32'), ('tx_bytes', 'u64'), ('tx_packets', 'u64'), ('tx_errors', 'u64')])
+stat('ofp_queue_stats', 'QUEUE', 'reply', True)
+
+def _b_vendor_stats (P, v):
+  data = payload(v['data'])
+  o = P.of.ofp_vendor_stats_generic(vendor=v['vendor'], data=data)
+  return o, (lambda: S.enc('ofp_vendor_stats', dict(vendor=v['vendor'])) + S.raw('data', data))
+Kind('ofp_vendor_stats_generic', 'stats', [('vendor', 'u32'), ('data', LEN(12, 0, 1, 8))], _b_vendor_stats,
+     ofcls('ofp_vendor_stats_generic'))
+stat('ofp_vendor_stats_generic', 'VENDOR', 'reply')
+def _b_generic_stats (P, v):
+  data = payload(v['data'])
+  return P.of.ofp_generic_stats_body(data=data), (lambda: S.raw('data', data))
+Kind('ofp_generic_stats_body', 'stats', [('data', LEN(12, 0, 1, 8))], _b_generic_stats, ofcls('ofp_generic_stats_body'))
+
+def entry_variants (kindname, n):
+  out = []
+  for i, v in enumerate(KINDS[kindname].lattice(1)):
+    if i % 2 == 0: out.append([kindname, v])
+    if len(out) == n: break
+  while len(out) < n: out.append(out[-1])
+  return out
+
+def _stats_msgs ():
+  for bk, (code, role, is_list) in sorted(STATS.items()):
+    if role == 'request' or bk == 'ofp_vendor_stats_generic':
+      def build (P, v, bk=bk, code=code):
+        body, bexp, _ = sub(P, v['body'])
+        kw = hkw(v); kw.update(flags=v['flags'], body=body)
+        if v['explicit_type']: kw['type'] = code
+        o = P.of.ofp_stats_request(**kw)
+        def exp ():
+          return S.message('ofp_stats_request', dict(header=hsp(v, S.OFPT['STATS_REQUEST']), type=code, flags=v['flags']),
+                           S.prefixed('body:%s.' % bk, bexp()))
+        return o, exp
+      Kind('ofp_stats_request/' + bk, 'msg',
+           HDR + [('flags', 'u16'), ('explicit_type', ('enum', False, [True])), ('body', ('enum', atom(bk), []))],
+           build, ofcls('ofp_stats_request'))
+    if role == 'reply' or bk == 'ofp_vendor_stats_generic':
+      ev = entry_variants(bk, 3)
+      if is_list:
+        shapes = ('enum', ['list', ev[:1]], [['list', []], ['list', ev[:2]], ['list', ev[:3]], ['tuple', ev[:2]], ['single', ev[:1]]])
+      else:
+        shapes = ('enum', ['single', ev[:1]], [['single', ev[1:2]]])
+      def build (P, v, bk=bk, code=code):
+        how, ents = v['body']
+        bodies, bexp, strict = sublist(P, ents, 'body')
+        if not ents and not v['explicit_type']: raise OutOfScope("type cannot be inferred from an empty list")
+        kw = hkw(v); kw['flags'] = v['flags']
+        kw['body'] = bodies if how == 'list' else tuple(bodies) if how == 'tuple' else bodies[0]
+        if v['explicit_type']: kw['type'] = code
+        o = P.of.ofp_stats_reply(**kw)
+        def exp ():
+          return S.message('ofp_stats_reply', dict(header=hsp(v, S.OFPT['STATS_REPLY']), type=code, flags=v['flags']), bexp())
+        # a bare entry or a tuple decodes to a list by design: compare bytes, not containers
+        return o, exp, dict(eq=strict and (how == 'list' or (how == 'single' and not STATS[bk][2])))
+      Kind('ofp_stats_reply/' + bk, 'msg',
+           HDR + [('flags', 'u16'), ('explicit_type', ('enum', False, [True])), ('body', shapes)],
+           build, ofcls('ofp_stats_reply'))
+_stats_msgs()
+
+def _b_stats_raw (clsname, sname, mtype):
+  def build (P, v):
+    data = payload(v['body'])
+    o = getattr(P.of, clsname)(type=v['type'], flags=v['flags'], body=data, **hkw(v))
+    def exp ():
+      return S.message(sname, dict(header=hsp(v, mtype), type=v['type'], flags=v['flags']), S.raw('body', data))
+    # a raw request body decodes into a generic body object by design: == and bytes decide
+    return o, exp, dict(view=False)
+  Kind(clsname + '/raw', 'msg', HDR + [('type', ('enum', 7, [0xfffe, 0x8000])), ('flags', 'u16'), ('body', LEN(12, 0, 1, 8, 1500))],
+       build, ofcls(clsname), payload='body')
+_b_stats_raw('ofp_stats_request', 'ofp_stats_request', S.OFPT['STATS_REQUEST'])
+_b_stats_raw('ofp_stats_reply', 'ofp_stats_reply', S.OFPT['STATS_REPLY'])
+
+# ---- objects changed after they were first encoded (the codecs cache packed bodies) -----
+def _b_req_reassigned (P, v):
+  code = STATS[v['second'][0]][0]
+  kw = hkw(v); kw['flags'] = v['flags']
+  if v['first'] is not None: kw['body'] = sub(P, v['first'])[0]
+  o = P.of.ofp_stats_request(**kw)
+  if v['first'] is None: o.type = code
+  if v['probe'] == 'len': len(o)
+  elif v['probe'] == 'pack': o.pack()
+  body, bexp, _ = sub(P, v['second'])
+  o.body = body
+  def exp ():
+    return S.message('ofp_stats_request', dict(header=hsp(v, S.OFPT['STATS_REQUEST']), type=code, flags=v['flags']),
+                     S.prefixed('body:%s.' % v['second'][0], bexp()))
+  return o, exp
+Kind('ofp_stats_request/body-reassigned', 'msg', HDR + [('flags', 'u16')], _b_req_reassigned, ofcls('ofp_stats_request'),
+     owner='ofp_stats_request/body-reassigned', owner_fixed=True)
+
+def _b_reply_appended (P, v):
+  bodies, bexp, strict = sublist(P, v['entries'], 'body')
+  o = P.of.ofp_stats_reply(flags=v['flags'], body=list(bodies[:v['first']]), type=STATS[v['entries'][0][0]][0], **hkw(v))
+  if v['probe'] == 'len': len(o)
+  elif v['probe'] == 'pack': o.pack()
+  for b in bodies[v['first']:]: o.body.append(b)
+  def exp ():
+    return S.message('ofp_stats_reply', dict(header=hsp(v, S.OFPT['STATS_REPLY']), type=STATS[v['entries'][0][0]][0],
+                                             flags=v['flags']), bexp())
+  return o, exp
+Kind('ofp_stats_reply/body-appended', 'msg', HDR + [('flags', 'u16')], _b_reply_appended, ofcls('ofp_stats_reply'),
+     owner='ofp_stats_reply/body-appended', owner_fixed=True)
+
+def mutation_cases ():
+  out = []
+  hv = base_vector(HDR + [('flags', 'u16')])
+  for bk, (code, role, is_list) in sorted(STATS.items()):
+    if role == 'request' and KINDS[bk].fields:
+      ev = entry_variants(bk, 2)
+      for first in (None, ev[0]):
+        for probe in ('none', 'len', 'pack'):
+          out.append(('ofp_stats_request/body-reassigned', dict(hv, first=first, second=ev[1], probe=probe)))
+    if role == 'reply' and is_list:
+      ev = entry_variants(bk, 3)
+      for n in (1, 2, 3):
+        for first in range(n):
+          for probe in ('none', 'len', 'pack'):
+            out.append(('ofp_stats_reply/body-appended', dict(hv, entries=ev[:n], first=first, probe=probe)))
+  return out
+
+
+# ---------------------------------------------------------------------------------------
+# Nicira messages
+# ---------------------------------------------------------------------------------------
+def nxm_ (clsname, sname, subtype, fields, tospec_=None, **opts):
+  fl = HDR + fields
+  def build (P, v):
+    kw = hkw(v); kw.update((f, v[f]) for f, t in fields)
+    o = getattr(P.nx, clsname)(**kw)
+    def exp ():
+      sv = tospec_(v) if tospec_ else dict((f, v[f]) for f, t in fields)
+      sv['header'] = dict(version=v['version'], xid=v['xid'])
+      return S.nx_message(sname, subtype, sv)
+    return o, exp
+  return Kind(clsname, 'nxmsg', fl, build, nxcls(clsname), **opts)
+
+nxm_('nx_flow_mod_table_id', 'nx_flow_mod_table_id', S.NXT['FLOW_MOD_TABLE_ID'], [('enable', ('enum', True, [False]))],
+     lambda v: dict(set=1 if v['enable'] else 0))
+nxm_('nx_packet_in_format', 'nx_set_packet_in_format', S.NXT['SET_PACKET_IN_FORMAT'], [('format', 'u32')])
+nxm_('nx_role_request', 'nx_role_request', S.NXT['ROLE_REQUEST'], [('role', 'u32')])
+nxm_('nx_role_reply', 'nx_role_request', S.NXT['ROLE_REPLY'], [('role', 'u32')], nx_dispatch=True)
+_ASY = ['packet_in_mask', 'packet_in_mask_slave', 'port_status_mask', 'port_status_mask_slave',
+        'flow_removed_mask', 'flow_removed_mask_slave']
+nxm_('nx_async_config', 'nx_async_config', S.NXT['SET_ASYNC_CONFIG'], [(f, 'u32') for f in _ASY],
+     lambda v: dict(packet_in_mask0=v[_ASY[0]], packet_in_mask1=v[_ASY[1]], port_status_mask0=v[_ASY[2]],
+                    port_status_mask1=v[_ASY[3]], flow_removed_mask0=v[_ASY[4]], flow_removed_mask1=v[_ASY[5]]))
+
+CMD8 = ('enum', 0, [1, 2, 3, 4, 0xff])
+FMOD8 = [(f, CMD8 if f == 'command' else t) for f, t in FMOD]
+def _b_flow_mod_tid (P, v):
+  m, mv, dc = match_pair(P, v['match'], flow_mod=True)
+  acts, aexp, strict = sublist(P, v['actions'], 'actions')
+  kw = hkw(v); kw.update((f, v[f]) for f, t in FMOD8); kw.update(match=m, actions=acts, table_id=v['table_id'])
+  o = P.nx.ofp_flow_mod_table_id(**kw)
+  def exp ():
+    sv = dict((f, v[f]) for f, t in FMOD8)
+    sv.update(header=hsp(v, S.OFPT['FLOW_MOD']), match=mv, buffer_id=bufspec(v['buffer_id']),
+              command=v['table_id'] << 8 | v['command'])
+    return S.message('ofp_flow_mod', sv, aexp())
+  return o, exp, dict(eq=strict, dont_care=dc)
+Kind('ofp_flow_mod_table_id', 'msg1', HDR + [('table_id', 'u8'), ('match', MATCH)] + FMOD8 + [('actions', ACTS)],
+     _b_flow_mod_tid, nxcls('ofp_flow_mod_table_id'))
+
+_NML = nxmatch_lists(2)
+NXMATCH = ('enum', _NML[1 + 10 + 1], [_NML[0], _NML[1], _NML[4], _NML[30]])
+NXFM = [('table_id', 'u8')] + FMOD8
+def _b_nx_flow_mod (P, v):
+  m, mexp = KINDS['nx_match'].build(P, dict(parts=v['match']))
+  acts, aexp, strict = sublist(P, v['actions'], 'actions')
+  kw = hkw(v); kw.update((f, v[f]) for f, t in NXFM); kw.update(match=m, actions=acts)
+  o = P.nx.nx_flow_mod(**kw)
+  def exp ():
+    mp = S.prefixed('match:nx_match.', mexp())
+    ml = S.plen(mp)
+    sv = dict((f, v[f]) for f, t in FMOD8)
+    sv.update(header=dict(version=v['version'], xid=v['xid']), buffer_id=bufspec(v['buffer_id']),
+              command=v['table_id'] << 8 | v['command'], match_len=ml)
+    return S.nx_message('nx_flow_mod', S.NXT['FLOW_MOD'], sv, mp + S.raw('match_pad', b'\0' * S.pad8(ml)) + aexp())
+  return o, exp, dict(eq=strict)
+Kind('nx_flow_mod', 'nxmsg', HDR + NXFM + [('match', NXMATCH), ('actions', ACTS)], _b_nx_flow_mod, nxcls('nx_flow_mod'))
+
+NXPI = [('buffer_id', BUF), ('total_len', ('enum', 0x9c41, [0xffff, 0x8000, None])), ('reason', 'u8'), ('table_id', 'u8'), ('cookie', 'u64')]
+def _b_nxt_packet_in (P, v):
+  data = payload(v['data'])
+  m, mexp = KINDS['nx_match'].build(P, dict(parts=v['match']))
+  kw = hkw(v); kw.update((f, v[f]) for f, t in NXPI); kw.update(match=m, data=data)
+  o = P.nx.nxt_packet_in(**kw)
+  def exp ():
+    mp = S.prefixed('match:nx_match.', mexp())
+    ml = S.plen(mp)
+    sv = dict((f, v[f]) for f, t in NXPI)
+    sv.update(header=dict(version=v['version'], xid=v['xid']), buffer_id=bufspec(v['buffer_id']), match_len=ml,
+              total_len=len(data) if v['total_len'] is None else v['total_len'])
+    return S.nx_message('nx_packet_in', S.NXT['PACKET_IN'], sv,
+                        mp + S.raw('match_pad', b'\0' * S.pad8(ml)) + S.raw('pad2', b'\0\0') + S.raw('data', data))
+  return o, exp
+Kind('nxt_packet_in', 'nxmsg', HDR + NXPI + [('match', NXMATCH), ('data', LEN(20, 0, 1, 1500))],
+     _b_nxt_packet_in, nxcls('nxt_packet_in'), nx_dispatch=True, payload='data')
+
+
+# ---------------------------------------------------------------------------------------
+# the enumerated space
+# ---------------------------------------------------------------------------------------
+CUSTOM = ('ofp_match', 'nxm_entry', 'nx_match', 'ofp_stats_request/body-reassigned', 'ofp_stats_reply/body-appended')
+
+def k_for (K, thorough):
+  n = len([f for f in K.fields if f[0] not in K.fixed])
+  if thorough: return 3
+  return 2 if n <= 14 else 1
+
+def rep_of (atom_, n): return [{'rep': [atom_, n]}]
+
+def limit_cases ():
+  """(kind, vector) pairs straddling the 64 KiB limit of the 16-bit length fields: the first of
+  each pair fits, the second must be rejected."""
+  out = []
+  aout = atom('ofp_action_output')
+  K = KINDS
+  for n in (8182, 8183): out.append(('ofp_flow_mod', K['ofp_flow_mod'].basev(actions=rep_of(aout, n))))
+  for n in (8189, 8190): out.append(('ofp_packet_out/data', K['ofp_packet_out/data'].basev(actions=rep_of(aout, n), data=0)))
+  for n in (8180, 8181): out.append(('ofp_flow_stats', K['ofp_flow_stats'].basev(actions=rep_of(aout, n))))
+  for n in (1364, 1365): out.append(('ofp_features_reply', K['ofp_features_reply'].basev(ports=rep_of(_PV[0], n))))
+  for n in (65527, 65528): out.append(('ofp_echo_request', K['ofp_echo_request'].basev(body=n)))
+  for n in (65517, 65518): out.append(('ofp_packet_in', K['ofp_packet_in'].basev(data=n, total_len=0xffff)))
+  for n in (65523, 65524): out.append(('ofp_error', K['ofp_error'].basev(data=n)))
+  for n in (65523, 65524): out.append(('ofp_vendor_generic', K['ofp_vendor_generic'].basev(data=n)))
+  for n in (65520, 65528): out.append(('ofp_action_vendor_generic', K['ofp_action_vendor_generic'].basev(body=n)))
+  for n in (65531, 65532): out.append(('ofp_action_generic', K['ofp_action_generic'].basev(data=n)))
+  mr = ['ofp_queue_prop_min_rate', {'rate': 5}]
+  for n in (4095, 4096): out.append(('ofp_packet_queue', K['ofp_packet_queue'].basev(properties=rep_of(mr, n))))
+  q0 = ['ofp_packet_queue', {'queue_id': 9, 'properties': []}]
+  for n in (8189, 8190): out.append(('ofp_queue_get_config_reply', K['ofp_queue_get_config_reply'].basev(queues=rep_of(q0, n))))
+  big = ['ofp_flow_stats', K['ofp_flow_stats'].basev(actions=rep_of(aout, 4000))]
+  for n in (2, 3):
+    out.append(('ofp_stats_reply/ofp_flow_stats', K['ofp_stats_reply/ofp_flow_stats'].basev(body=['list', [big] * n])))
+  return out
+
+def queue_shapes ():
+  mr = lambda r: ['ofp_queue_prop_min_rate', {'rate': r}]
+  q = lambda i, n: ['ofp_packet_queue', {'queue_id': 0x01010101 * (i + 1), 'properties': [mr(0x100 * i + j) for j in range(n)]}]
+  out = [[]]
+  for a in range(4):
+    out.append([q(0, a)])
+    for b in range(4):
+      out.append([q(0, a), q(1, b)])
+      for c in range(4):
+        out.append([q(0, a), q(1, b), q(2, c)])
+  return out
+
+def port_shapes (thorough):
+  for n in range(1, 4):
+    base = [p for p in _PV[:n]]
+    for pos in range(n):
+      for v in KINDS['ofp_phy_port'].lattice(1 if not thorough else 2):
+        ports = list(base); ports[pos] = ['ofp_phy_port', v]
+        yield ports
+
+def sweeps (thorough):
+  """[(sweep name, kind name, generator of vectors)] - every vector of every sweep is run."""
+  out = []
+  K = KINDS
+  for name in sorted(K):
+    if name in CUSTOM: continue
+    k = k_for(K[name], thorough)
+    out.append(('lattice-k%d' % k, name, (lambda name=name, k=k: K[name].lattice(k))))
+    pf = K[name].opts.get('payload')
+    if pf:
+      out.append(('payload-0..1500', name, (lambda name=name, pf=pf: (K[name].basev(**{pf: n}) for n in range(1501)))))
+  mk = 3 if thorough else 2
+  out.append(('match-lattice-k%d' % mk, 'ofp_match', lambda: (dict(m=m) for m in match_sweep(mk))))
+  out.append(('match-lattice-k2', 'ofp_flow_mod', lambda: (K['ofp_flow_mod'].basev(match=m) for m in match_sweep(2, prefixes=thorough))))
+  for cont in ('ofp_flow_removed', 'ofp_flow_stats_request', 'ofp_flow_mod_table_id'):
+    ck = 1 if thorough else 0
+    out.append(('match-lattice-k%d' % ck, cont, lambda cont=cont, ck=ck: (K[cont].basev(match=m) for m in match_sweep(ck, prefixes=False))))
+  L = 3 if thorough else 2
+  for cont in ('ofp_flow_mod', 'ofp_packet_out/data', 'ofp_flow_stats', 'nx_flow_mod'):
+    out.append(('action-seqs<=%d' % L, cont, lambda cont=cont: (K[cont].basev(actions=s) for s in action_seqs(L))))
+  out.append(('queue-shapes', 'ofp_queue_get_config_reply',
+              lambda: (K['ofp_queue_get_config_reply'].basev(queues=q) for q in queue_shapes())))
+  out.append(('port-shapes', 'ofp_features_reply',
+              lambda: (K['ofp_features_reply'].basev(ports=p) for p in port_shapes(thorough))))
+  out.append(('nxm-classes', 'nxm_entry', lambda: nxm_sweep(pox(), thorough)))
+  NL = 3 if thorough else 2
+  out.append(('nxmatch-lists<=%d' % NL, 'nx_match', lambda: (dict(parts=p) for p in nxmatch_lists(NL))))
+  out.append(('nxmatch-lists<=2', 'nx_flow_mod', lambda: (K['nx_flow_mod'].basev(match=p) for p in nxmatch_lists(2))))
+  out.append(('nxmatch-lists<=1', 'nxt_packet_in', lambda: (K['nxt_packet_in'].basev(match=p) for p in nxmatch_lists(1))))
+  out.append(('learn-specs<=%d' % L, 'nx_action_learn', lambda: (K['nx_action_learn'].basev(spec=s) for s in learn_spec_seqs(L))))
+  out.append(('64KiB-limits', None, lambda: limit_cases()))
+  out.append(('changed-after-first-encoding', None, lambda: mutation_cases()))
+  return out
+
+
+def _work (item):
+  si, sl, nsl, thorough, only = item
+  P = pox()
+  rep = Report(PID, "exploration")
+  sname, kname, gen = sweeps(thorough)[si]
+  j = -1
+  try:
+    for x in gen():
+      j += 1
+      if j % nsl != sl: continue
+      if kname is None: kn, v = x
+      else: kn, v = kname, x
+      K = KINDS[kn]
+      V = run_case(P, K, v)
+      rep.evaluations += 1
+      rep.transitions += V.calls
+      if V.note and V.note.startswith('out-of-scope'):
+        rep.extra['out_of_scope'] = rep.extra.get('out_of_scope', 0) + 1
+      elif V.note and V.note.startswith('unconstructible'):
+        rep.extra['unconstructible'] = rep.extra.get('unconstructible', 0) + 1
+      if V.raw is not None: rep.state_count += 1
+      raw = V.raw or b''
+      rep.outcome((kn, tuple(f[0] for f in V.fails), V.note, len(raw), zlib.crc32(raw) & 0xff))
+      for suffix, text in V.fails:
+        rep.violation("%s:%s" % (PID, suffix), text, dict(kind=kn, v=v, sweep=sname))
+      if j == 0 and not V.fails and V.raw is not None and len(raw) <= 128 and sname.startswith(('lattice', 'nxm', 'match-lattice')):
+        rep.sample(dict(kind=kn, sweep=sname, vector=v, bytes=raw.hex(), verdict=V.note or 'held'))
+  except Exception:
+    rep.error("sweep %s/%s case %d: %s" % (sname, kname, j, traceback.format_exc(limit=6).replace("\n", " | ")[-700:]))
+  return rep
+
+
+def run (cfg):
+  P = pox()
+  thorough = not cfg.quick
+  rep = Report(PID, "exploration")
+  sw = sweeps(thorough)
+  items = []
+  sizes = {}
+  for si, (sname, kname, gen) in enumerate(sw):
+    if cfg.only and cfg.only not in (kname or 'limits') and cfg.only not in sname: continue
+    n = sum(1 for _ in gen())
+    sizes["%s:%s" % (sname, kname or '*')] = n
+    nsl = max(1, min(4 * cfg.workers, n // 400))
+    if kname is None: nsl = min(n, 2 * cfg.workers)
+    for sl in range(nsl): items.append((si, sl, nsl, thorough, cfg.only))
+  best = {}
+  for r in pmap(_work, items, cfg.workers, seed=cfg.seed):
+    viol = r.violations; r.violations = {}
+    rep.merge(r)
+    for k, x in viol.items():
+      c = best.get(k)
+      cand = (len(repr(x['replay'])), repr(x['replay']))
+      if c is None: best[k] = [cand, dict(x)]
+      else:
+        c[1]['count'] += x['count']
+        if cand < c[0]:
+          c[0] = cand; c[1]['replay'] = x['replay']; c[1]['what'] = x['what']
+  rep.violations = dict((k, c[1]) for k, c in best.items())
+  rep.samples.sort(key=repr)
+  rep.rule = ("E-enum over %d codec kinds (22 OpenFlow 1.0 message types, 13 action type codes + unknown-type action, 7+7 "
+              "statistics bodies inside and outside ofp_stats_request/reply, ofp_phy_port, ofp_packet_queue, 3 queue "
+              "properties, ofp_match; Nicira: %d nx_* actions/messages, every class of _nxm_type_to_class, nx_match): "
+              "(1) every field vector within k deviations of a fingerprint base vector (a distinct byte pattern per "
+              "field) over {0,1,max,sign-bit,fingerprint} / {'', 1 char, full width, high latin-1} / listed list shapes "
+              "[k per kind: %s]; (2) every payload length 0..1500 for echo/error/vendor/packet-in/packet-out/raw stats; "
+              "(3) every prerequisite-consistent ofp_match: per protocol context every wildcard subset, every value "
+              "vector within %d deviations, every nw_src x nw_dst prefix pair 0..32, standalone and inside flow-mod; "
+              "(4) every action sequence of length <= %d over 16 action atoms in flow-mod, packet-out, flow-stats, "
+              "nx_flow_mod; (5) 0..3 ports / queues x 0..3 properties / stats entries; (6) both sides of the 64 KiB limit "
+              "of every 16-bit length field; (7) every NXM class x 5 values x {no mask, all-ones, zero, 3 partial, CIDR}; "
+              "nx_match lists and learn specs to the same length bound. Each case: len/pack, byte-for-byte comparison "
+              "with the specification layout table (mc/refs/ofspec.py), decode through every entry point (unpack_new, "
+              "dispatch table, list decoders), alone and embedded at a non-zero offset with trailing bytes, ==, public "
+              "field comparison, re-encode. distinct = (kind, verdict, length, 8-bit checksum) digests"
+              % (len(KINDS), len([k for k in KINDS if k.startswith('nx')]),
+                 "2" if cfg.quick else "3", 3 if thorough else 2, 3 if thorough else 2))
+  rep.bound = dict(deviations=2 if cfg.quick else 3, payload="0..1500", action_seq_len=3 if thorough else 2,
+                   list_shapes="0..3", match_deviations=3 if thorough else 2)
+  rep.extra['sweep_sizes'] = sizes
+  rep.assumptions = [
+    "ofp_match objects are prerequisite-consistent (fields whose prerequisite is absent are documented as ignored); a wildcarded field is sent as zero; nw prefix counts >= 32 are one value; in a flow-mod the wildcard bits of non-applicable fields carry no meaning",
+    "ofp_action_output.max_len is only defined for OFPP_CONTROLLER; pack() zeroing it for other ports is a documented normalisation",
+    "an all-ones NXM mask is equivalent to no mask",
+    "Nicira actions decode to their own class only through that class's unpack_new; through the generic action-list / vendor-message decoders only consumed length and re-encoding are required",
+    "Nicira layouts are compared only for structures stated with certainty in mc/refs/ofspec.py (not MPLS actions, bundle)",
+    "values outside a field's wire range, names longer than the field, buffer_id together with data, total_len < len(data) are refused by the library's validation and are out of scope",
+    "structures (ofp_match, ofp_phy_port, ofp_packet_queue, queue properties, statistics bodies) are decoded with their unpack(); messages and actions with unpack_new and the dispatch tables",
+  ]
+  return rep
+
+
+def replay (cfg, data):
+  P = pox()
+  K = KINDS[data["kind"]]
+  V = run_case(P, K, data["v"])
+  lines = ["kind: %s" % K.name, "vector: %r" % (data["v"],)]
+  if V.note: lines.append("note: %s" % V.note)
+  if V.raw is not None:
+    lines.append("encoded (%d bytes): %s%s" % (len(V.raw), V.raw[:96].hex(), "..." if len(V.raw) > 96 else ""))
+  for suffix, text in V.fails:
+    lines.append("FAIL %s:%s -- %s" % (PID, suffix, text))
+  if not V.fails: lines.append("all oracle clauses held")
+  return bool(V.fails), "\n".join(lines)
